@@ -64,9 +64,10 @@ def population_correction(h):
     h.ensures("scores_are_the_given_scores", z3.eq(m["score"], score(u)))
     h.ensures("a_correction_exists", c.nan is None or z3.Not(c.nan), why="the query 'percent > q' selects at least the last row (cumulative weight 1 > q)")
     # calibration invariant: the weighted share of calibration units with score <= c exceeds q ...
-    h.ensures("calibration.weighted_share_covered_exceeds_q", Wle(c.t) > q.t)
+    rpc = lambda ev: {"target": "verif_replays:population_correction_replay", "args": [], "check": "result['exc'] is None and result['ok']"}  # noqa: E731
+    h.ensures("calibration.weighted_share_covered_exceeds_q", Wle(c.t) > q.t, replay=rpc)
     # ... and c is the smallest calibration score with that property
-    h.ensures("calibration.minimal", z3.Implies(z3.And(*cal.axis.facts(), score(u) < c.t), Wle(score(u)) <= q.t))
+    h.ensures("calibration.minimal", z3.Implies(z3.And(*cal.axis.facts(), score(u) < c.t), Wle(score(u)) <= q.t), replay=rpc)
     h.ensures("correction_is_a_calibration_score", z3.And(w_ >= 0, w_ < root.n, inCal(w_), score(w_) == c.t))
 
 
